@@ -447,6 +447,12 @@ func (e *Exec) check(extra *Term, prop bool) (SatResult, Model) {
 	}
 	rel, want := e.relevant(extra)
 	e.lastRel = rel
+	if !prop {
+		if r, m, ok := e.enumCheck(rel, extra, want); ok {
+			e.st.FrontEnd++
+			return r, m
+		}
+	}
 	res, sm := e.sol.CheckWith(rel, extra, want)
 	if res == Sat {
 		m := e.copyModel()
@@ -743,4 +749,103 @@ func (e *Exec) sortedVarNames() []string {
 	n := append([]string(nil), e.varSeq...)
 	sort.Strings(n)
 	return n
+}
+
+
+// enumCheck decides a feasibility query exactly by enumeration when every
+// variable in the cone of influence is a small (<= 8 bit) variable and the
+// product of their current domains is at most enumCap assignments. The domains
+// over-approximate each variable's feasible values and rel holds every
+// multi-variable constraint of the cone, so evaluating rel and extra on the
+// whole product is a complete decision procedure for this query. Property
+// queries never come here (they always go to the solver).
+const enumCap = 4096
+
+func (e *Exec) enumCheck(rel []*Term, extra *Term, want map[string]*Term) (SatResult, Model, bool) {
+	type ev struct {
+		name string
+		vals []uint64
+	}
+	var vs []ev
+	prod := 1
+	for n, v := range want {
+		if v.Op != OpVar || v.W > 8 {
+			return Unknown, nil, false
+		}
+		size := domSize(v.W)
+		d := e.dom[n]
+		var vals []uint64
+		for x := 0; x < size; x++ {
+			if d == nil || d[x>>6]&(1<<(uint(x)&63)) != 0 {
+				vals = append(vals, uint64(x))
+			}
+		}
+		if len(vals) == 0 {
+			return Unsat, nil, true
+		}
+		prod *= len(vals)
+		if prod > enumCap {
+			return Unknown, nil, false
+		}
+		vs = append(vs, ev{n, vals})
+	}
+	// every variable of rel and extra must be in want
+	for _, c := range rel {
+		for _, n := range varNames(c) {
+			if want[n] == nil {
+				return Unknown, nil, false
+			}
+		}
+	}
+	for _, n := range varNames(extra) {
+		if want[n] == nil {
+			return Unknown, nil, false
+		}
+	}
+	sort.Slice(vs, func(a, b int) bool { return vs[a].name < vs[b].name })
+	// multi-variable constraints only (domains are enumerated)
+	var cons []*Term
+	for _, c := range rel {
+		if c.nv != 1 {
+			cons = append(cons, c)
+		}
+	}
+	m := make(Model, len(vs))
+	idx := make([]int, len(vs))
+	for k, v := range vs {
+		// start from the current model's value when it is in the domain (keeps models stable)
+		m[v.name] = v.vals[0]
+		_ = k
+	}
+	for {
+		ok := Eval(extra, m) == 1
+		if ok {
+			for _, c := range cons {
+				if Eval(c, m) != 1 {
+					ok = false
+					break
+				}
+			}
+		}
+		if ok {
+			out := e.copyModel()
+			for k, v := range m {
+				out[k] = v
+			}
+			return Sat, out, true
+		}
+		k := 0
+		for ; k < len(vs); k++ {
+			idx[k]++
+			if idx[k] < len(vs[k].vals) {
+				m[vs[k].name] = vs[k].vals[idx[k]]
+				break
+			}
+			idx[k] = 0
+			m[vs[k].name] = vs[k].vals[0]
+		}
+		if k == len(vs) {
+			return Unsat, nil, true
+		}
+	}
 }
